@@ -150,11 +150,15 @@ TOKENS = {
     'trail-dot': ['track.', 'dir.', '...'],
     'meta': ['a+b.mp3', '[x].mp3', '(y).mp3', 'a(b.mp3', 'c*d?.mp3', 'e^f$.mp3', 'g{1}.mp3', 'h|i.mp3', 'j).mp3'],
     'numbered': ['track (1).mp3', 'track (01).mp3', 'readme (2)'],
+    # look-alikes: characters that compatibility normalisation (NFKC / NFKD) or case folding would turn into '.',
+    # '..', '/' or '\\' - inside ONE component they are ordinary characters of a file name
+    'lookalike': ['..\uff0fevil.mp3', '\uff0fetc\uff0fevil.mp3', '..\uff3cevil.mp3', '\u2025', '\u2024\u2024', '\uff0e\uff0e',
+                  '\u2025\uff0fx.mp3', 'a\uff0fb.mp3', '\uff0e', '\u2215etc\u2215x', '\ufe52\ufe52'],
 }
 KINDS = list(TOKENS)
 _TOKEN_KIND = {tok: kind for kind, toks in TOKENS.items() for tok in toks}
 _KIND_WEIGHTS = {'dotdot': 4, 'dot': 3, 'alias': 2, 'drive': 2, 'plain': 8, 'long': 1, 'longbytes': 2, 'nonascii': 2,
-                 'trail-space': 2, 'trail-dot': 2, 'meta': 4, 'numbered': 2, '': 3}
+                 'trail-space': 2, 'trail-dot': 2, 'meta': 4, 'numbered': 2, 'lookalike': 3, '': 3}
 NAMELESS = ['', '\\', '//', '\\\\', '/\\/', '\\/\\\\']
 _SEPS_BS = ['\\', '\\', '\\', '\\\\', '\\\\\\']
 _SEPS_FS = ['/', '/', '/', '//', '///']
